@@ -1,24 +1,108 @@
 (* C04 - Status survives the header encoding; reading any headers is total; mapping tables.
-   Statements only: each theorem is closed by [exact] of a lemma proved in Proofs/Status.v. *)
-From Verif Require Import Lib.Bytes Lib.Base64 Lib.Percent Lib.Utf8 Lib.HeaderMap.
-From Verif Require Import Gen.StatusTables Model.Status Proofs.Status.
+   Statements only: each theorem is closed by [exact] of a lemma proved in Proofs/Status.v or
+   Proofs/StatusExt.v.  Every statement is about a function the harness evaluates on the same
+   inputs as the real code (add_header_c / to_header_map_c / into_http_c / from_header_map /
+   infer_grpc_status / code_from_h2 / from_error_code / the Code tables). *)
+From Verif Require Import Lib.Bytes Lib.Obs Lib.Base64 Lib.Percent Lib.Utf8 Lib.HeaderMap.
+From Verif Require Import Gen.StatusTables Gen.ConstTables Model.Status Proofs.Status.
+From Verif Require Import Model.StatusExt Proofs.StatusExt.
 Open Scope N_scope.
 
-(* any code, any UTF-8 message, any details, any metadata: written then read back is equal
-   (metadata pointwise per name, minus the names the protocol reserves) *)
+(* ------------------------------------------------------------------ writing and reading back *)
+(* any code, any UTF-8 message, any details, any metadata: written to the TRAILERS of a server
+   stream (Status::to_header_map) and read back is equal (metadata pointwise per name, minus the
+   names the protocol reserves).  The only bound is the capacity of http::HeaderMap itself:
+   24576 distinct names in the finished map; it is exact (c04_write_panics_iff). *)
+Theorem c04_trailers_roundtrip : forall st,
+  well_formed st -> utf8_valid (st_msg st) = true ->
+  hm_get_all (st_md st) hdr_grpc_status_details = [] ->
+  hm_names (sanitize (st_md st)) + n_written st <= HM_MAX_NAMES ->
+  exists m st',
+    to_header_map_c st = WOk m /\ from_header_map m = Some st' /\
+    st_code st' = st_code st /\ st_msg st' = st_msg st /\ st_details st' = st_details st /\
+    forall k, hm_get_all (st_md st') k = hm_get_all (sanitize (st_md st)) k.
+Proof. exact trailers_roundtrip. Qed.
+
+(* the same through Status::add_header into a fresh map *)
 Theorem c04_status_roundtrip : forall st,
   well_formed st -> utf8_valid (st_msg st) = true ->
   hm_get_all (st_md st) hdr_grpc_status_details = [] ->
+  hm_names (sanitize (st_md st)) + n_written st <= HM_MAX_NAMES ->
   exists m st',
-    to_header_map st = Some m /\ from_header_map m = Some st' /\
+    add_header_c st [] = WOk m /\ from_header_map m = Some st' /\
     st_code st' = st_code st /\ st_msg st' = st_msg st /\ st_details st' = st_details st /\
     forall k, hm_get_all (st_md st') k = hm_get_all (sanitize (st_md st)) k.
-Proof. exact status_roundtrip. Qed.
+Proof. exact fresh_roundtrip. Qed.
 
-(* header values produced are always legal: add_header cannot fail, so into_http's unwrap
-   cannot fire *)
-Theorem c04_header_values_legal : forall st m, well_formed st -> exists m', add_header st m = Some m'.
-Proof. exact add_header_never_fails. Qed.
+(* the head of a Trailers-Only response (Status::into_http): content-type stays the gRPC one
+   whatever the metadata says, the status is read back equal *)
+Theorem c04_into_http_roundtrip : forall st,
+  well_formed st -> utf8_valid (st_msg st) = true ->
+  hm_get_all (st_md st) hdr_grpc_status_details = [] ->
+  hm_names (sanitize (st_md st)) + 4 <= HM_MAX_NAMES ->
+  exists m st',
+    into_http_c st = Some m /\
+    hm_get_all m hdr_content_type = [grpc_content_type] /\
+    from_header_map m = Some st' /\
+    st_code st' = st_code st /\ st_msg st' = st_msg st /\ st_details st' = st_details st /\
+    forall k, hm_get_all (st_md st') k =
+              if bytes_eqb k hdr_content_type then [grpc_content_type]
+              else hm_get_all (sanitize (st_md st)) k.
+Proof. exact into_http_roundtrip. Qed.
+
+(* add_header into ANY existing map without a stale grpc-message / grpc-status-details-bin:
+   whenever the write succeeds the status is read back; the other names of the map survive
+   unless the status metadata overrides them *)
+Theorem c04_add_header_roundtrip : forall st m0 m,
+  well_formed st -> utf8_valid (st_msg st) = true ->
+  hm_get_all (st_md st) hdr_grpc_status_details = [] ->
+  hm_get_all m0 hdr_grpc_message = [] -> hm_get_all m0 hdr_grpc_status_details = [] ->
+  add_header_c st m0 = WOk m ->
+  exists st', from_header_map m = Some st' /\
+    st_code st' = st_code st /\ st_msg st' = st_msg st /\ st_details st' = st_details st /\
+    forall k, hm_get_all (st_md st') k =
+              if is_status_name k then [] else hm_get_all (hm_extend m0 (sanitize (st_md st))) k.
+Proof. exact add_header_c_roundtrip. Qed.
+
+(* ------------------------------------------------------------------ outcomes of writing *)
+(* Err only for an illegal value, which a well-formed status never produces (the unwrap of
+   into_http can therefore only be reached by the capacity panic below) *)
+Theorem c04_add_header_never_err : forall st m, well_formed st -> add_header_c st m <> WErr.
+Proof. exact add_header_c_never_err. Qed.
+
+(* the panic of the http crate ("size overflows MAX_SIZE") is an explicit outcome; writing into
+   an empty map (add_header into a fresh map, the trailers) hits it exactly when the finished map
+   would need more than 24576 distinct names - metadata VALUES do not count (F-C04d) *)
+Theorem c04_write_panics_iff : forall st, well_formed st ->
+  (add_header_c st [] = WPanic <-> HM_MAX_NAMES < hm_names (sanitize (st_md st)) + n_written st).
+Proof. exact add_header_c_empty_panics_iff. Qed.
+
+Theorem c04_trailers_panic_iff : forall st, well_formed st ->
+  (to_header_map_c st = WPanic <-> HM_MAX_NAMES < hm_names (sanitize (st_md st)) + n_written st).
+Proof. exact to_header_map_c_panics_iff. Qed.
+
+(* into any map: no panic while target + metadata + the three status headers fit *)
+Theorem c04_add_header_fits : forall st m, well_formed st ->
+  hm_names m + hm_names (sanitize (st_md st)) + 3 <= HM_MAX_NAMES ->
+  exists m', add_header_c st m = WOk m' /\ add_header st m = Some m'.
+Proof. exact add_header_c_fits. Qed.
+
+(* outside the panic the capacity-aware model IS the multimap model other properties use *)
+Theorem c04_capacity_model_refines : forall st m,
+  match add_header_c st m with
+  | WOk m' => add_header st m = Some m'
+  | WErr => add_header st m = None
+  | WPanic => True
+  end.
+Proof. exact add_header_c_refines. Qed.
+
+(* ------------------------------------------------------------------ legality of what is written *)
+(* every value of the finished map is a legal HTTP header value, for EVERY status, provided the
+   values of the target map and of the user metadata were (those are HeaderValues already) *)
+Theorem c04_header_values_legal : forall st m m',
+  hm_values_ok m = true -> hm_values_ok (st_md st) = true ->
+  add_header_c st m = WOk m' -> hm_values_ok m' = true.
+Proof. exact add_header_c_values_legal. Qed.
 
 Theorem c04_message_value_legal : forall l, bytes_ok l = true -> hv_ok (pct_encode in_encoding_set l) = true.
 Proof. exact msg_hv. Qed.
@@ -26,6 +110,21 @@ Proof. exact msg_hv. Qed.
 Theorem c04_details_value_legal : forall pad l, bytes_ok l = true -> hv_ok (enc pad l) = true.
 Proof. exact b64_hv. Qed.
 
+(* the two encodings used for the message and the details, on their own: percent-encoding with
+   ENCODING_SET is undone by percent-decoding; base64 is written unpadded and decoded whatever the
+   padding (DecodePaddingMode::Indifferent) *)
+Theorem c04_message_encoding_roundtrip : forall l,
+  bytes_ok l = true -> pct_decode (pct_encode in_encoding_set l) = l.
+Proof. exact message_roundtrip. Qed.
+
+Theorem c04_base64_padding_indifferent : forall pad l, bytes_ok l = true -> dec (enc pad l) = Some l.
+Proof. exact dec_enc. Qed.
+
+Theorem c04_details_written_unpadded : forall l,
+  bytes_ok l = true -> forallb is_b64_char (enc false l) = true.
+Proof. exact enc_nopad_no_pad. Qed.
+
+(* ------------------------------------------------------------------ reading arbitrary headers *)
 (* reading is total: no grpc-status -> no status; otherwise a status whose code is one of the
    17, UNKNOWN for malformed codes, degraded to UNKNOWN for undecodable message / details *)
 Theorem c04_from_header_map_total : forall m,
@@ -40,48 +139,129 @@ Theorem c04_from_header_map_total : forall m,
         st_code st = Code_Unknown /\ st_msg st = details_err_prefix /\ st_details st = [])).
 Proof. exact from_header_map_total. Qed.
 
+(* exactly the three status headers are stripped; every other header becomes metadata *)
+Theorem c04_from_header_map_metadata : forall m st,
+  from_header_map m = Some st ->
+  forall k, hm_get_all (st_md st) k = if is_status_name k then [] else hm_get_all m k.
+Proof. exact from_header_map_metadata. Qed.
+
+(* decodable fields are read exactly *)
+Theorem c04_from_header_map_exact : forall m cv d,
+  hm_get m hdr_grpc_status = Some cv ->
+  let msg := match hm_get m hdr_grpc_message with Some h => pct_decode h | None => [] end in
+  utf8_valid msg = true ->
+  match hm_get m hdr_grpc_status_details with Some h => dec h | None => Some [] end = Some d ->
+  exists st, from_header_map m = Some st /\
+    st_code st = code_from_bytes cv /\ st_msg st = msg /\ st_details st = d.
+Proof. exact from_header_map_exact. Qed.
+
 Theorem c04_code_roundtrip : forall c, is_code c = true ->
   exists v, code_to_hv c = Some v /\ code_from_bytes v = c /\ hv_ok v = true.
 Proof. exact code_roundtrip. Qed.
 
+(* ------------------------------------------------------------------ no grpc-status: HTTP table *)
 (* all HTTP statuses 100..599 (finite domain, bound in the statement) *)
 Theorem c04_http_table : forall s, 100 <= s <= 599 ->
   infer_code_from_http s = if s =? 200 then None else Some (http_spec s).
 Proof. exact http_table_spec. Qed.
 
-(* every HTTP/2 error code, named or unknown *)
-Theorem c04_h2_table : forall r, h2_spec_ok r (code_from_h2 r) = true.
-Proof. exact h2_table_spec. Qed.
+(* infer_grpc_status: trailers without a grpc-status count for nothing *)
+Theorem c04_infer_without_grpc_status : forall t s,
+  hm_get t hdr_grpc_status = None -> infer_grpc_status (Some t) s = infer_grpc_status None s.
+Proof. exact infer_without_grpc_status. Qed.
+
+(* a grpc-status in the trailers beats the HTTP status, whatever that is *)
+Theorem c04_infer_grpc_status_wins : forall t s cv,
+  hm_get t hdr_grpc_status = Some cv ->
+  exists st, from_header_map t = Some st /\
+    infer_grpc_status (Some t) s = (if st_code st =? Code_Ok then inl tt else inr (Some st)) /\
+    forall s', infer_grpc_status (Some t) s' = infer_grpc_status (Some t) s.
+Proof. exact infer_grpc_status_wins. Qed.
+
+(* what the caller sees (None = clean end of the stream) *)
+Theorem c04_infer_code_http : forall t s, 100 <= s <= 599 ->
+  match t with Some t => hm_get t hdr_grpc_status = None | None => True end ->
+  infer_code t s = if s =? 200 then None else Some (http_spec s).
+Proof. exact infer_code_http. Qed.
+
+Theorem c04_infer_code_trailers : forall t s c,
+  is_code c = true -> hm_get t hdr_grpc_status = Some (dec_small c) ->
+  (forall h, hm_get t hdr_grpc_message = Some h -> utf8_valid (pct_decode h) = true) ->
+  (forall h, hm_get t hdr_grpc_status_details = Some h -> dec h <> None) ->
+  infer_code (Some t) s = if c =? Code_Ok then None else Some c.
+Proof. exact infer_code_trailers. Qed.
+
+(* ------------------------------------------------------------------ HTTP/2 error codes *)
+(* every HTTP/2 error code, named or unknown; FRAME_SIZE_ERROR is INTERNAL (F-C04c); only
+   STREAM_CLOSED (5) and HTTP_1_1_REQUIRED (13), which the gRPC table does not map, may be
+   INTERNAL or UNKNOWN *)
+Theorem c04_h2_table : forall r, h2_spec_strict r (code_from_h2 r) = true.
+Proof. exact h2_table_strict. Qed.
+
+(* Status -> h2::Error (server side): CANCELLED resets with CANCEL, everything else with
+   INTERNAL_ERROR *)
+Theorem c04_to_h2 : forall c, to_h2_error c = if c =? Code_Cancelled then 8 else 2.
+Proof. exact to_h2_spec. Qed.
 
 Theorem c04_from_i32 : forall z,
   code_from_i32 z = if ((0 <=? z) && (z <=? 16))%Z then Z.to_N z else Code_Unknown.
 Proof. exact from_i32_spec. Qed.
 
+(* a stream reset by the peer with HTTP/2 error code r: hyper's error (neither its timeout nor
+   its cancellation) whose source is the h2 error, under ANY number of wrappers tonic does not
+   know and with anything below it - the harness checks that the error a real Channel returns
+   has this shape (kind reset.chain) *)
+Theorem c04_reset_stream_wrapped : forall ws r rest,
+  forallb is_other ws = true ->
+  h2_spec_strict r (from_error_code (ws ++ EHyper false false (Some (Some r)) :: rest)) = true.
+Proof. exact reset_stream_wrapped. Qed.
 
-(* a stream reset by the peer with HTTP/2 error code r (hyper error whose source is the h2
-   error), and an h2 error handed to Status::from_error directly: classified by the table *)
-Theorem c04_reset_stream : forall r, h2_spec_ok r (reset_stream_code r) = true.
-Proof. exact reset_stream_spec. Qed.
+Theorem c04_reset_stream : forall r, h2_spec_strict r (reset_stream_code r) = true.
+Proof. exact (fun r => reset_stream_wrapped [] r [] eq_refl). Qed.
 
-Theorem c04_from_error_h2 : forall r rest, h2_spec_ok r (from_error_code (EH2 (Some r) :: rest)) = true.
-Proof. exact from_error_h2_spec. Qed.
+Theorem c04_from_error_h2 : forall r rest, h2_spec_strict r (from_error_code (EH2 (Some r) :: rest)) = true.
+Proof. exact from_error_h2_strict. Qed.
 
-Theorem c04_from_error_wrappers : forall l,
-  from_error_code (EOther :: l) =
-  match find_status_in_chain l with Some c => c | None => Code_Unknown end.
-Proof. exact from_error_skips_unknown_wrappers. Qed.
+(* wrappers that tonic does not know do not change the classification (any number of them) *)
+Theorem c04_from_error_wrappers : forall ws l,
+  forallb is_other ws = true -> ws <> [] ->
+  from_error_code (ws ++ l) = match find_status_in_chain l with Some c => c | None => Code_Unknown end.
+Proof. exact from_error_under_wrappers. Qed.
 
-(* non-vacuity: a concrete hostile-looking status meets the hypotheses of the round trip *)
+(* hyper's own keep-alive timeout / cancellation win over an h2 source *)
+Theorem c04_hyper_timeout_cancel : forall ws h rest,
+  forallb is_other ws = true ->
+  from_error_code (ws ++ EHyper true false h :: rest) = Code_Unavailable /\
+  from_error_code (ws ++ EHyper false true h :: rest) = Code_Cancelled.
+Proof. exact hyper_timeout_cancel. Qed.
+
+(* ------------------------------------------------------------------ non-vacuity *)
+(* a concrete hostile-looking status meets the hypotheses of the round trips *)
 Example c04_roundtrip_premises_hold :
   let st := mkStatus 5 [97; 58; 37; 32; 127; 195; 169] [0; 255; 7; 9]
                      [([120; 45; 97], [118]); ([116; 101], [120])] in
   well_formed st /\ utf8_valid (st_msg st) = true /\
-  hm_get_all (st_md st) hdr_grpc_status_details = [].
-Proof. repeat split; reflexivity. Qed.
+  hm_get_all (st_md st) hdr_grpc_status_details = [] /\
+  hm_names (sanitize (st_md st)) + n_written st <= HM_MAX_NAMES.
+Proof. repeat split; try reflexivity. vm_compute. discriminate. Qed.
 
-Print Assumptions c04_status_roundtrip.
+(* the Panic outcome is reachable (24576 metadata names) and metadata values alone never reach it
+   (the witness of F-C04d: 24574 values under one name) *)
+Example c04_panic_reachable : wres_size_obs (to_header_map_c (cap_status 5 [] [] 24576 0)) = Nd [Nn 99].
+Proof. vm_compute. reflexivity. Qed.
+Example c04_values_do_not_count :
+  wres_size_obs (to_header_map_c (cap_status 5 [109] [] 0 24574)) = Nd [Nn 1; Nn 3; Nn 24576].
+Proof. vm_compute. reflexivity. Qed.
+(* a real reset chain as the Channel returns it (transport error > hyper error > h2 error) *)
+Example c04_reset_chain_shape :
+  from_error_code ([EOther] ++ EHyper false false (Some (Some 6)) :: [EH2 (Some 6)]) = Code_Internal.
+Proof. reflexivity. Qed.
+
+Print Assumptions c04_trailers_roundtrip.
+Print Assumptions c04_into_http_roundtrip.
+Print Assumptions c04_write_panics_iff.
 Print Assumptions c04_header_values_legal.
 Print Assumptions c04_from_header_map_total.
-Print Assumptions c04_http_table.
+Print Assumptions c04_infer_code_trailers.
 Print Assumptions c04_h2_table.
-Print Assumptions c04_reset_stream.
+Print Assumptions c04_reset_stream_wrapped.
